@@ -72,7 +72,9 @@ func checkPayAmount(c *Ctx, rule, key string, ci ssa.CallInstruction) {
 	where := p.InstrPos(ci)
 	switch {
 	case eventGuard(p, gs, "GameEvent_AnteRequested"):
-		c.Check(amt.IsField("Meta", "Ante") || amt.Kind == "field" && amt.Name == "Ante", rule, key+":ante", where, "pays Meta.Ante", "under the ante request the automation pays "+amt.String()+" instead of the posted ante")
+		// the amount posted for THIS hand: the hand state's Meta.Ante (not the table's blind level)
+		ok := amt.IsField("Meta", "Ante") && amt.Args[0].Strip().IsField("GameState", "Meta")
+		c.Check(ok, rule, key+":ante", where, "pays the hand's Meta.Ante", "under the ante request the automation pays "+amt.String()+" instead of the ante posted for this hand (GameState.Meta.Ante)")
 	case eventGuard(p, gs, "GameEvent_BlindsRequested"):
 		var want string
 		switch {
@@ -83,7 +85,8 @@ func checkPayAmount(c *Ctx, rule, key string, ci ssa.CallInstruction) {
 		case hasPositionGuard(gs, false, "bb") && hasPositionGuard(gs, false, "sb"):
 			want = "Dealer"
 		}
-		ok := want != "" && amt.Kind == "field" && amt.Owner == "BlindSetting" && amt.Name == want
+		ok := want != "" && amt.Kind == "field" && amt.Owner == "BlindSetting" && amt.Name == want &&
+			amt.Args[0].Strip().IsField("Meta", "Blind") && amt.Args[0].Strip().Args[0].Strip().IsField("GameState", "Meta")
 		c.Check(ok, rule, key+":blind:"+want, where, "pays Blind."+want+" for that position", fmt.Sprintf("under the blinds request the automation pays %s; for this position guard the posted blind is Blind.%s", amt, want))
 	default:
 		c.Bad(rule, key+":unconditioned", where, "a payment of "+amt.String()+" is made outside the ante / blinds request events")
